@@ -9,7 +9,7 @@ git checkout -q -- . ; rm -f tests/zz_seed_demo.rs
 run_demo() {
   case "$DEMO" in
     *.rs) cp "$DEMO" tests/zz_seed_demo.rs; cargo test --offline --test zz_seed_demo >/tmp/confirm_demo.$$ 2>&1; rc=$?; rm -f tests/zz_seed_demo.rs ;;
-    *.sh) sh "$DEMO" >/tmp/confirm_demo.$$ 2>&1; rc=$? ;;
+    *.sh) bash "$DEMO" >/tmp/confirm_demo.$$ 2>&1; rc=$? ;;
   esac
   return $rc
 }
